@@ -758,6 +758,18 @@ func (c *Ctx) summariseStmts(stmts []ast.Stmt, nodeName, byteVar string, pos tok
 					case *ast.ExprStmt:
 						// q.push(child)
 						if _, elem, ok := c.m.pushCall(x); ok {
+							// q.push(entry{ref: child, depth: d}): the reference inside the entry
+							if cl, isLit := ast.Unparen(elem).(*ast.CompositeLit); isLit {
+								for _, el := range cl.Elts {
+									e := el
+									if kv, ok := el.(*ast.KeyValueExpr); ok {
+										e = kv.Value
+									}
+									if c.isNodeRefType(info.TypeOf(e)) {
+										elem = e
+									}
+								}
+							}
 							s.child = a.norm(elem)
 							continue
 						}
